@@ -1,5 +1,7 @@
 package main
 
+import "fmt"
+
 func init() { props["C03"] = checkC03 }
 
 func checkC03(c *Ctx) {
@@ -20,6 +22,11 @@ func checkC03(c *Ctx) {
 	c.Decides("ENDS: where an orientation test re-targets one end of a branch, the other outcome of the test re-targets the other end of the same branch to the same node (NNI apply/undo)")
 	c.endsBothOrientations("ENDS", c.AllFuncs("tree"), "symmetric adjacency and every branch pointing away from the root")
 	c.Floor("ENDS", 4)
+	c.Decides("SLOT-BY-SEARCH: no in-place replacement of a neighbour or branch of a node at a constant position (the slot of a given neighbour is found by searching for it)")
+	nss, _ := c.slotBySearch("SLOT-BY-SEARCH", c.AllFuncs("tree"), "symmetric adjacency")
+	if nss < 10 {
+		c.Undecided("SLOT-BY-SEARCH", "scan-count", 0, fmt.Sprintf("only %d in-place stores into neigh/br seen", nss))
+	}
 	c.Decides("SNAPSHOT: a loop of package tree over a snapshot (make+copy) of a node's neigh or br reads the node's other parallel slice at the loop index only through a snapshot as well")
 	ns, _ := c.snapshotParallel("SNAPSHOT", c.AllFuncs("tree"))
 	c.Extra["snapshot_loops"] = ns
